@@ -173,6 +173,7 @@ type c17Node struct {
 	Target    string // as written on disk
 	CtrTarget string // intended absolute container path (canonical)
 	Lkind     string // label
+	Noncanon  bool   // Target is an absolute path spelled with "//", "/./" or a trailing "/"
 	// flags
 	Placeholder bool
 }
@@ -243,11 +244,13 @@ type c17Scenario struct {
 	Root     *c17Node
 	Mounts   []*c17Mount
 	Secrets  []*c17Secret
-	OtherTmp string            // a second tmp mount ("" if none)
-	TextMnts map[string]string // staged text mounts below the output path: ctr path -> content
-	Entries  int
-	Serial   int
-	Labels   map[string]bool
+	OtherTmp string // a second tmp mount ("" if none)
+	// Noncanonical: absolute link targets may be spelled non-canonically
+	Noncanonical bool
+	TextMnts     map[string]string // staged text mounts below the output path: ctr path -> content
+	Entries      int
+	Serial       int
+	Labels       map[string]bool
 }
 
 func c17SetParents(n *c17Node) {
@@ -460,6 +463,32 @@ func (sc *c17Scenario) addLink(t *rapid.T, d *c17Node, ctrTarget, lkind string) 
 	case 0, 1:
 		n.Target = ctrTarget
 		sc.label("link-form:absolute")
+		if sc.Noncanonical && rapid.IntRange(0, 3).Draw(t, "noncanonical") == 0 && len(ctrTarget) > 1 {
+			// the same path, spelled the way a program that concatenates
+			// path pieces may spell it
+			var slashes []int
+			for i := 1; i < len(ctrTarget); i++ {
+				if ctrTarget[i] == '/' {
+					slashes = append(slashes, i)
+				}
+			}
+			dirLike := lkind == "dir" || lkind == "mount-root" || lkind == "mount-subdir" || lkind == "cycle-ancestor"
+			k := rapid.IntRange(0, 2).Draw(t, "noncanonicalKind")
+			switch {
+			case k == 0 && len(slashes) > 0:
+				i := rapid.SampledFrom(slashes).Draw(t, "dslashAt")
+				n.Target = ctrTarget[:i] + "/" + ctrTarget[i:]
+			case k == 1 && len(slashes) > 0:
+				i := rapid.SampledFrom(slashes).Draw(t, "dotAt")
+				n.Target = ctrTarget[:i] + "/." + ctrTarget[i:]
+			case dirLike:
+				n.Target = ctrTarget + "/"
+			}
+			if n.Target != ctrTarget {
+				n.Noncanon = true
+				sc.label("link-form:absolute-noncanonical")
+			}
+		}
 	case 2:
 		n.Target = "./" + c17Rel(dirCtr, ctrTarget)
 		sc.label("link-form:relative")
@@ -651,7 +680,7 @@ func (sc *c17Scenario) genLinks(t *rapid.T, bad bool) {
 			// the link's own path: create with a placeholder target, then fix
 			l := sc.addLink(t, d, sc.CtrOut, "cycle-self")
 			self := sc.CtrOut + l.rel()
-			l.CtrTarget = self
+			l.CtrTarget, l.Noncanon = self, false
 			if strings.HasPrefix(l.Target, "/") {
 				l.Target = self
 			} else {
@@ -661,7 +690,7 @@ func (sc *c17Scenario) genLinks(t *rapid.T, bad bool) {
 			d2 := pickDir("cycleDir2")
 			l1 := sc.addLink(t, d, sc.CtrOut, "cycle-two")
 			l2 := sc.addLink(t, d2, sc.CtrOut+l1.rel(), "cycle-two")
-			l1.CtrTarget = sc.CtrOut + l2.rel()
+			l1.CtrTarget, l1.Noncanon = sc.CtrOut+l2.rel(), false
 			if strings.HasPrefix(l1.Target, "/") {
 				l1.Target = l1.CtrTarget
 			} else {
@@ -873,6 +902,7 @@ func c17Gen(t *rapid.T) *c17Scenario {
 	sc.CtrOut = rapid.SampledFrom([]string{"/ctr/outdir", "/var/spool/cwl", "/out"}).Draw(t, "ctrOut")
 	sc.Root = &c17Node{Kind: c17Dir}
 	bad := rapid.IntRange(0, 9).Draw(t, "badMode") < 3
+	sc.Noncanonical = rapid.IntRange(0, 9).Draw(t, "noncanonicalMode") == 0
 	sc.genDir(t, sc.Root, 1)
 	sc.genMounts(t)
 	sc.genSecrets(t)
@@ -1166,19 +1196,37 @@ func c17Run(cp *copier) (res c17Result) {
 	return
 }
 
-func c17Check(t c17TB, sc *c17Scenario) {
+// c17Failure is how the oracle reports a property failure inside c17Evaluate.
+type c17Failure string
+
+type c17Verdict struct {
+	skip    bool
+	infra   string
+	failure string // "" = the property held on this scenario
+	outcome string
+	res     c17Result
+	exp     *c17Exp
+}
+
+// c17Evaluate materialises the scenario, runs the real Copy and applies the
+// oracle.
+func c17Evaluate(sc *c17Scenario) (v c17Verdict) {
 	exp := c17Expect(sc)
+	v.exp = exp
 	if exp.tooBig {
-		t.Skip("expected tree too large")
+		v.skip = true
+		return
 	}
 	tmp, err := os.MkdirTemp("/dev/shm", "verif-c17-")
 	if err != nil {
-		t.Fatalf("VERIF-INFRA: %v", err)
+		v.infra = err.Error()
+		return
 	}
 	defer os.RemoveAll(tmp)
 	hostOut := tmp + "/out"
 	if err := sc.materialise(hostOut); err != nil {
-		t.Fatalf("VERIF-INFRA: cannot create the tree: %v\n%s", err, sc.describe())
+		v.infra = fmt.Sprintf("cannot create the tree: %v\n%s", err, sc.describe())
+		return
 	}
 
 	keep := c17NewKeep()
@@ -1218,16 +1266,21 @@ func c17Check(t c17TB, sc *c17Scenario) {
 		logger:        logger,
 	})
 	c17InflightClear()
+	v.res = res
 
 	fail := func(format string, a ...interface{}) {
-		t.Fatalf("%s\n--- scenario\n%s--- returned manifest\n%q\n--- returned error\n%v", fmt.Sprintf(format, a...), sc.describe(), res.text, res.err)
+		panic(c17Failure(fmt.Sprintf("%s\n--- scenario\n%s--- returned manifest\n%q\n--- returned error\n%v", fmt.Sprintf(format, a...), sc.describe(), res.text, res.err)))
 	}
+	defer func() {
+		if r := recover(); r != nil {
+			f, ok := r.(c17Failure)
+			if !ok {
+				panic(r)
+			}
+			v.failure = string(f)
+		}
+	}()
 
-	var labels []string
-	for l := range sc.Labels {
-		labels = append(labels, l)
-	}
-	outcome := ""
 	switch {
 	case res.panicked != nil:
 		// A panic is not a clean failure; it is tolerated only where the
@@ -1236,7 +1289,7 @@ func c17Check(t c17TB, sc *c17Scenario) {
 		if len(exp.mustFail) == 0 {
 			fail("Copy panicked on a tree that must be copied: %v", res.panicked)
 		}
-		outcome = "outcome:panic-where-failure-required"
+		v.outcome = "outcome:panic-where-failure-required"
 	case res.err != nil:
 		if res.text != "" {
 			fail("Copy returned both an error and a manifest")
@@ -1245,19 +1298,88 @@ func c17Check(t c17TB, sc *c17Scenario) {
 			fail("Copy failed on a tree in which every link resolves inside the mounts (deepest link nesting %d)", exp.maxDepth)
 		}
 		if len(exp.mustFail) > 0 {
-			outcome = "outcome:failed-as-required"
+			v.outcome = "outcome:failed-as-required"
 		} else {
-			outcome = "outcome:failed-where-allowed"
+			v.outcome = "outcome:failed-where-allowed"
 		}
 	default:
 		if len(exp.mustFail) > 0 {
 			fail("Copy succeeded although it must fail: %s", strings.Join(exp.mustFail, "; "))
 		}
 		c17Compare(sc, exp, keep, res.text, fail)
-		outcome = "outcome:copied-and-compared"
+		v.outcome = "outcome:copied-and-compared"
 		if len(exp.mayFail) > 0 {
-			outcome = "outcome:copied-where-failure-allowed"
+			v.outcome = "outcome:copied-where-failure-allowed"
 		}
+	}
+	return
+}
+
+// c17Canonical returns a deep copy of sc in which every non-canonically
+// spelled absolute link target is replaced by its canonical spelling.
+func c17Canonical(sc *c17Scenario) (*c17Scenario, int) {
+	buf, err := json.Marshal(sc)
+	if err != nil {
+		panic("VERIF-INFRA: " + err.Error())
+	}
+	cp := &c17Scenario{}
+	if err := json.Unmarshal(buf, cp); err != nil {
+		panic("VERIF-INFRA: " + err.Error())
+	}
+	c17SetParents(cp.Root)
+	n := 0
+	for _, l := range cp.allNodes(c17Link) {
+		if l.Noncanon {
+			l.Target, l.Noncanon = l.CtrTarget, false
+			n++
+		}
+	}
+	return cp, n
+}
+
+// c17KnownNoncanonical is the classifier key proposed for the finding written
+// up in notes/C17.md: the copier compares container paths as strings, so an
+// absolute symlink target spelled with "//", "/./" or a trailing "/" is not
+// recognised as the secret / mount / output path it names.
+const c17KnownNoncanonical = "c17-noncanonical-abs-symlink-target"
+
+func c17Check(t c17TB, sc *c17Scenario) {
+	v := c17Evaluate(sc)
+	if v.skip {
+		t.Skip("expected tree too large")
+	}
+	if v.infra != "" {
+		t.Fatalf("VERIF-INFRA: %s", v.infra)
+	}
+	exp, res, outcome := v.exp, v.res, v.outcome
+	if v.failure != "" {
+		// Narrow classifier: the failure disappears when nothing but the
+		// spelling of the non-canonical absolute link targets is changed.
+		if canon, n := c17Canonical(sc); n > 0 {
+			if v2 := c17Evaluate(canon); v2.failure == "" && v2.infra == "" && !v2.skip {
+				first := v.failure
+				if i := strings.Index(first, "\n"); i > 0 {
+					first = first[:i]
+				}
+				var spelled []string
+				for _, l := range sc.allNodes(c17Link) {
+					if l.Noncanon {
+						spelled = append(spelled, fmt.Sprintf("%q (means %q)", l.Target, l.CtrTarget))
+					}
+				}
+				if stats.Known(c17KnownNoncanonical, first+" | non-canonical targets: "+strings.Join(spelled, ", ")) {
+					stats.Case(stats.FP(sc.describe()), true, "known:noncanonical-abs-symlink-target")
+					return
+				}
+				t.Fatalf("[holds when the link targets %s are spelled canonically] %s", strings.Join(spelled, ", "), v.failure)
+			}
+		}
+		t.Fatalf("%s", v.failure)
+	}
+
+	var labels []string
+	for l := range sc.Labels {
+		labels = append(labels, l)
 	}
 	labels = append(labels, outcome)
 	if len(exp.mustFail) > 0 {
